@@ -6,6 +6,8 @@
 mod build;
 mod cfr;
 mod edit;
+mod monitor;
+mod zoo;
 mod eval;
 mod named;
 mod rng;
@@ -38,6 +40,7 @@ fn main() {
         ["replay", "step"] => cfr::replay_step(&args),
         ["gen", "run"] => cfr::gen_run(&args),
         ["replay", "run"] => cfr::replay_run(&args),
+        ["record", "solve"] => monitor::record(&args),
         other => {
             eprintln!("unknown command {other:?}");
             std::process::exit(2);
